@@ -319,6 +319,7 @@ class Engine:
             def run(ctx, case=case, ckw=ckw):
                 I.ctx = ctx
                 I.depth = 0
+                I.call_hooks = {}
                 sb = SymBuilder(I, ctx)
                 ctx.sb = sb
                 bo = BuilderObj(sb)
